@@ -23,7 +23,9 @@ def initM (label : String) : M :=
   let ws := words label
   let mt := (kvNat? ws "min_temp").getD 1
   let st := (kvNat? ws "start").getD 100
-  { cfg := ⟨mt, MAX_TTL⟩, s := init st, n := labelN label }
+  -- `max_ttl=<k>` in the label: the host's max_entry_ttl of this sequence (default MAX_TTL)
+  let mx := (kvNat? ws "max_ttl").getD MAX_TTL
+  { cfg := ⟨mt, mx⟩, s := init st, n := labelN label }
 
 def parseOp (ws : List String) : Option (List Nat × Op) :=
   match ws with
